@@ -145,7 +145,8 @@ def cached1(fam, progs, tier, module, cap, pb):
 
 
 C19_STAGES = [("tk_corpus", 0, 0), ("tk_mpsc", 24, 250), ("tk_oneshot", 16, 120), ("tk_notify", 20, 200),
-              ("tk_sem", 20, 200), ("tk_mutex", 12, 120), ("tk_watch", 20, 200), ("tk_rwlock", 16, 150), ("tk_cancel", 16, 150)]
+              ("tk_sem", 20, 200), ("tk_mutex", 12, 120), ("tk_watch", 20, 200), ("tk_rwlock", 16, 150), ("tk_cancel", 16, 150),
+              ("tk_oncecell", 20, 200)]
 C19_ASSUME = [
     "reference models (spec/Tokio.tla): mpsc bounded/unbounded incl. blocking and try variants, close, drops, capacity(); "
     "oneshot; Notify (notify_one / notify_waiters / notified().await); Semaphore (acquire_many_owned, try, add_permits, close, "
